@@ -58,6 +58,15 @@ type Path struct {
 	Abort   string // non-empty: the evaluator could not follow the path
 	Refine  *Refine
 	Steps   int
+	// Bounds records, for every index / slice instruction executed on the path,
+	// whether the access was in range for every value the operands stand for.
+	Bounds []BoundsNote
+}
+
+// BoundsNote is one executed bounds check: Note is "proven", "unproven" or "violated".
+type BoundsNote struct {
+	Pos  token.Pos
+	Note string
 }
 
 // Chose returns the option taken for an atom key (-1 if the atom was never asked).
@@ -128,6 +137,7 @@ type Machine struct {
 	recorded  []Choice
 	atoms     map[string]int
 	trace     []Effect
+	bounds    []BoundsNote
 	steps     int
 	globals   map[*ssa.Global]*Obj
 	symObjs   map[string]*Obj
@@ -166,7 +176,12 @@ func (m *Machine) Choose(key string, n int) int {
 func (m *Machine) Atom(key string) bool { return m.Choose(key, 2) == 1 }
 
 // Emit appends an effect to the current path.
-func (m *Machine) Emit(e Effect) { m.trace = append(m.trace, e) }
+func (m *Machine) Emit(e Effect) {
+	m.trace = append(m.trace, e)
+	if e.Kind == "bounds" && e.Pos.IsValid() {
+		m.bounds = append(m.bounds, BoundsNote{Pos: e.Pos, Note: e.Note})
+	}
+}
 
 // NewObj allocates a fresh memory cell.
 func (m *Machine) NewObj(name string, v Val) *Obj {
@@ -237,6 +252,7 @@ func (m *Machine) runOnce(fn *ssa.Function, setup func(m *Machine) []Val) (p *Pa
 	m.recorded = nil
 	m.atoms = map[string]int{}
 	m.trace = nil
+	m.bounds = nil
 	m.steps = 0
 	m.globals = map[*ssa.Global]*Obj{}
 	m.symObjs = map[string]*Obj{}
@@ -246,6 +262,7 @@ func (m *Machine) runOnce(fn *ssa.Function, setup func(m *Machine) []Val) (p *Pa
 	defer func() {
 		p.Choices = m.recorded
 		p.Effects = m.trace
+		p.Bounds = m.bounds
 		p.Steps = m.steps
 		if r := recover(); r != nil {
 			switch e := r.(type) {
@@ -929,6 +946,7 @@ func (m *Machine) indexAddr(fr *frame, in *ssa.IndexAddr) Val {
 				m.boundsOK(in, false)
 				m.abort("index %d out of range [0,%d) in %s", idx.Lo, len(a.E), fr.fn)
 			}
+			m.boundsOK(in, true)
 		}
 		return Ref{O: x.O, Path: appendPath(x.Path, int(idx.Lo))}
 	case SliceV:
@@ -945,6 +963,7 @@ func (m *Machine) indexAddr(fr *frame, in *ssa.IndexAddr) Val {
 			m.Emit(Effect{Kind: "bounds", Name: "index", Args: []Val{idx, K(x.Len)}, Pos: in.Pos(), Note: "violated"})
 			panic(panicErr{v: Str(fmt.Sprintf("index out of range [%d] with length %d", idx.Lo, x.Len))})
 		}
+		m.boundsOK(in, true)
 		return Ref{O: x.O, Path: appendPath(x.Path, int(x.Lo+idx.Lo))}
 	case SymSeq:
 		// bounds obligation: idx < len
@@ -967,7 +986,15 @@ func (m *Machine) indexAddr(fr *frame, in *ssa.IndexAddr) Val {
 	return nil
 }
 
-func (m *Machine) boundsOK(in ssa.Instruction, ok bool) {}
+func (m *Machine) boundsOK(in ssa.Instruction, ok bool) {
+	note := "proven"
+	if !ok {
+		note = "violated"
+	}
+	if in.Pos().IsValid() {
+		m.bounds = append(m.bounds, BoundsNote{Pos: in.Pos(), Note: note})
+	}
+}
 
 // tryLess returns 1 if a<b for all values, 0 if a>=b for all, -1 otherwise.
 func (m *Machine) tryLess(a, b Int) int {
@@ -1179,6 +1206,7 @@ func (m *Machine) sliceConcrete(in *ssa.Slice, s SliceV, lo Int, hasLo bool, hi 
 		m.Emit(Effect{Kind: "bounds", Name: "slice", Args: []Val{K(l), K(h), K(s.Cap)}, Pos: in.Pos(), Note: "violated"})
 		panic(panicErr{v: Str(fmt.Sprintf("slice bounds out of range [%d:%d] with capacity %d", l, h, s.Cap))})
 	}
+	m.boundsOK(in, true)
 	return SliceV{O: s.O, Path: s.Path, Lo: s.Lo + l, Len: h - l, Cap: c - l}
 }
 
